@@ -1,0 +1,13 @@
+//go:build verif
+
+package contextmanager
+
+import "lunar/toolkit-core/clock"
+
+// SetClockForVerif installs an arbitrary clock implementation (verification harness only).
+func (m *ContextManager) SetClockForVerif(c clock.Clock) *ContextManager {
+	m.mu.Lock()
+	defer m.mu.Unlock()
+	m.clock = c
+	return instance
+}
